@@ -231,6 +231,7 @@ namespace pika::split_tuple_detail {
             os.reset();
 
             predecessor_done = true;
+            PIKA_VERIF_POINT(127, this);
 
             {
                 // We require taking the lock here to synchronize with
@@ -268,6 +269,7 @@ namespace pika::split_tuple_detail {
                 std::lock_guard<mutex_type> l{mtx};
             }
 
+            PIKA_VERIF_POINT(128, this);
             if (!continuations.empty())
             {
                 // We move the continuations to a local variable to
@@ -299,6 +301,7 @@ namespace pika::split_tuple_detail {
                 // If predecessor_done is false, we have to take the
                 // lock to potentially add the continuation to the
                 // vector of continuations.
+                PIKA_VERIF_POINT(126, this);
                 std::unique_lock<mutex_type> l{mtx};
 
                 if (predecessor_done)
